@@ -33,7 +33,7 @@ import (
 // (HandleSlashedValidators) in the BeginBlock of a new block, with no transaction in between.
 func TestC06(t *testing.T) {
 	c := ev.For("C06")
-	c.SetRule("rapid state machine on a generated world (2-3 validators, 2-5 providers on 2-3 chains, 1-4 delegators; actors = delegators, provider vaults, validator self-delegators): staking delegate/undelegate/redelegate (through the redelegation ante flag)/cancel-unbond and validator slashes of 1-50% (new block, slashing.Slash with an infraction height 0-30 blocks back, dualstaking BeginBlocker) interleaved with dualstaking delegate/redelegate (empty provider included)/unbond/claim and provider stake/modify/move/unstake, blocks/epochs/days advancing; oracle after every step and every block: per delegator, sum of provider delegations within [sum floor, sum ceil] of the exact token value of its validator shares (+1 token per share-rounding event since it was last re-balanced), no negative delegation; non-trivial = one step reduced >=2 provider delegations of a delegator by unequal amounts, or a slash of a validator whose delegators hold provider delegations; distinct = distinct histories")
+	c.SetRule("rapid state machine on a generated world (2-3 validators, 2-5 providers on 2-3 chains, 1-4 delegators; actors = delegators, provider vaults, validator self-delegators): staking delegate/undelegate/redelegate (through the redelegation ante flag)/cancel-unbond, multi-message transactions of 2-3 such messages with 0-2 levels of authz MsgExec wrapping run through the real ante decorator (RedelegationFlager.AnteHandle), and validator slashes of 1-50% (new block, slashing.Slash with an infraction height 0-30 blocks back, dualstaking BeginBlocker) interleaved with dualstaking delegate/redelegate (empty provider included)/unbond/claim and provider stake/modify/move/unstake, blocks/epochs/days advancing; oracle after every step and every block: per delegator, sum of provider delegations within [sum floor, sum ceil] of the exact token value of its validator shares (+1 token per share-rounding event since it was last re-balanced), no negative delegation; non-trivial = one step reduced >=2 provider delegations of a delegator by unequal amounts, or a slash of a validator whose delegators hold provider delegations; distinct = distinct histories")
 	c.Assume("transactions run atomically (cache context + bank snapshot) as under BaseApp",
 		"every non-redelegation transaction clears the redelegation flag first (what the RedelegationFlager ante handler does); the redelegation transaction sets it",
 		"a slash = new block, SlashingKeeper.Slash (infraction height 0-30 blocks back, so young unbondings/redelegations are slashed too), then the dualstaking BeginBlocker, as ordered in app.go (slashing, evidence, dualstaking); no transaction in between",
@@ -173,6 +173,7 @@ func propC06(rt *rapid.T, t *testing.T, c *ev.Collector) {
 		"valRedelegate":  withAnte(w, a.valRedelegate),
 		"cancelUnbond":   withAnte(w, a.cancelUnbond),
 		"slash":          a.slash,
+		"batchTx":        withAnte(w, a.batchTx),
 		"dualDelegate":   withAnte(w, a.dualDelegate),
 		"dualDelegate2":  withAnte(w, w.ActDualDelegate),
 		"dualRedelegate": withAnte(w, a.dualRedelegate),
@@ -212,6 +213,15 @@ func propC06(rt *rapid.T, t *testing.T, c *ev.Collector) {
 	}
 	if a.valUnbondOK > 0 {
 		classes = append(classes, "validator-unbond-accepted")
+	}
+	if a.batchOK > 0 {
+		classes = append(classes, "multi-message-tx-accepted")
+	}
+	if a.batchMixed > 0 {
+		classes = append(classes, "multi-message-tx-mixing-redelegation-with-other-messages")
+	}
+	if a.batchAuthz > 0 {
+		classes = append(classes, "multi-message-tx-with-authz-wrapped-message")
 	}
 	if w.C.Halt != "" {
 		classes = append(classes, "halted")
